@@ -94,7 +94,7 @@ def run_model(specdir, module, cfg, expect, workers=16, timeout=1800):
         if "Model checking completed. No error has been found." not in txt:
             raise Infra("design model %s/%s: a property of the specification does not hold:\n%s" % (module, cfg, txt[-3000:]))
     else:
-        if ("%s is violated" % expect) not in txt:
+        if ("%s is violated" % expect) not in txt and ("%s was violated" % expect) not in txt:
             raise Infra("vacuity guard: deviation config %s/%s no longer violates %s:\n%s" % (module, cfg, expect, txt[-2000:]))
     return gen, dist
 
@@ -109,7 +109,10 @@ def extract_cases(tlc_out, dest, fam, start_id, extra_fields=None):
             if not m:
                 continue
             c = json.loads(json.loads(m.group(1))[5:])
-            rec = {"id": start_id + n, "fam": fam, "ast": c["ast"], "inp": c["inp"], "binds": fix_binds(c.get("binds", [])), "exp": c.get("exp")}
+            if "bytes" in c or "toks" in c:
+                rec = dict(c, id=start_id + n, fam=fam)
+            else:
+                rec = {"id": start_id + n, "fam": fam, "ast": c["ast"], "inp": c["inp"], "binds": fix_binds(c.get("binds", [])), "exp": c.get("exp")}
             if extra_fields:
                 rec.update(extra_fields)
             g.write(json.dumps(rec) + "\n")
@@ -258,13 +261,14 @@ def write_evidence(prop, tier, seed, level, coverage, wall, violations, assumpti
 def write_replay(prop, tier, seed, ev, verdict, direction):
     d = os.path.join(VERIF, "replays")
     os.makedirs(d, exist_ok=True)
-    src = cps_to_str(ev.get("src", []))
+    src = cps_to_str(ev.get("src", [])) if "bytes" not in ev else bytes(ev["bytes"]).decode("utf-8", "backslashreplace")
     h = hashlib.sha1((src + json.dumps(ev.get("inp"), sort_keys=True)).encode()).hexdigest()[:10]
     p = os.path.join(d, "%s-%s.json" % (prop, h))
     rec = {"property": prop, "tier": tier, "seed": seed, "direction": direction, "program": src,
            "input": plain(ev.get("inp")), "input_spec": ev.get("inp"), "binds": ev.get("binds"),
            "observed": ev.get("out"), "verdict": verdict, "fam": ev.get("fam"),
-           "case": ({"id": 1, "fam": ev.get("fam"), "ast": ev["want_ast"], "inp": ev.get("inp"), "binds": ev.get("binds", [])} if "want_ast" in ev
+           "case": ({"id": 1, "fam": ev.get("fam"), "mode": "compile", "bytes": ev["bytes"]} if "bytes" in ev else
+                    {"id": 1, "fam": ev.get("fam"), "ast": ev["want_ast"], "inp": ev.get("inp"), "binds": ev.get("binds", [])} if "want_ast" in ev
                     else {"id": 1, "fam": ev.get("fam"), "src": src, "inp": ev.get("inp"), "binds": ev.get("binds", [])})}
     if "exp" in ev:
         rec["expected_default"] = ev["exp"]
